@@ -55,7 +55,8 @@ def R1(inp, N, n, m):
     sane = And([Implies(And(e[1] <= p.commit, e[1] >= p.base), so.has_entry(p.log, e[1], e[2])) for e in entries] or [True])
     cl['commit_within_log'] = Implies(sane, And(q.commit <= q.last, q.applied <= q.commit)) if q.log else False
     cl['stale_term_ignored'] = Implies(stale, And(len(tr.sent) == 0, so.logs_equal(p.log, q.log) if len(p.log) == len(q.log) else False,
-                                                  Eq(q.commit, p.commit), Eq(q.term, p.term), q.role == p.role, q.voted == p.voted))
+                                                  Eq(q.commit, p.commit), Eq(q.term, p.term), q.role == p.role, q.voted == p.voted,
+                                                  Eq(q.deadline, p.deadline), q.leader == p.leader))       # a deposed leader's heartbeat must not postpone the election either
     cl['accepts_leader'] = Implies(Not(stale), And(q.role == F, q.leader == sender, Eq(q.term, mterm)))
     cl['only_acks_to_sender'] = len(tr.sent) == len(replies) and all(nd == sender for nd, _ in tr.sent)
     cl['one_reply_when_current'] = Implies(Not(stale), len(replies) == 1)
@@ -116,7 +117,7 @@ def RS(inp, kind, n):
     return Res(cl, nontrivial=And(mterm >= p.term, mci > p.commit), obs=obs, vars=dict(kind=kind, mci=mci, commit=p.commit))
 
 
-@obligation('R6', props=('C04', 'C01', 'C05', 'C20'),
+@obligation('R6', props=('C04', 'C01', 'C05', 'C20', 'C02', 'C11'),
             quick=[dict(N=3, n=2)], thorough=[dict(N=N, n=n) for N in (2, 3, 5) for n in (1, 2, 3)] + [dict(N=3, n=2, obs=1)],
             stubs=_STUBS, bounds='N<=5, n<=3, any role, any reply fields (success/reset flags, index 0..last+3)')
 def R6(inp, N, n, obs=0):
@@ -168,6 +169,8 @@ def R7(inp, N, n, obs=0):
     allpeers = [x for x in IDS[1:N]] + ['r%d' % i for i in range(obs)]
     p = so.sym_state(inp, o, now, n, role=L, term_hi=T_HI, observers=['r%d' % i for i in range(obs)], connected=allpeers)   # no sending in this tick: connectivity is irrelevant
     put(o, 'newAppendEntriesTime', now + 1)          # no heartbeat in this tick (sending is PG/A2's subject)
+    stored = []
+    get(o, 'raftLog').setRaftCommitIndex = stored.append      # what would go to the journal's .meta
     _, exc = guard(o._onTick, 0.0)
     q = so.post_state(o)
     voters = [x.id for x in p.others]
@@ -184,6 +187,7 @@ def R7(inp, N, n, obs=0):
     cl['log_untouched'] = so.logs_equal(p.log, q.log) if len(p.log) == len(q.log) else False
     cl['applies_up_to_commit'] = Eq(q.applied, q.commit)
     cl['term_vote_unchanged'] = And(Eq(q.term, p.term), q.voted == p.voted)
+    cl['persisted_commit_index_is_the_commit_index'] = And([Eq(v, q.commit) for v in stored] or [True])
     obs_ = lambda: dict(N=N, post_role=q.role, post_commit=show(q.commit), sent=[(nd.id, mm['type']) for nd, mm in tr.sent], exc=show(exc))
     return Res(cl, nontrivial=Or(c1 > p.commit, Not(heard)), obs=obs_)
 
